@@ -472,14 +472,29 @@ func (c *Core) BarrierRekeyUpdate(ctx context.Context, key []byte, nonce string)
 
 func (c *Core) performBarrierRekey(ctx context.Context, newSealKey []byte) logical.HTTPCodedError {
 	isShamirSeal := c.seal.BarrierType() == seal.WrapperTypeShamir
+	keysStored := false
 	if isShamirSeal {
 		shamirWrapper, err := c.seal.GetShamirWrapper()
+		var oldSealKey []byte
 		if err == nil {
+			oldSealKey, _ = shamirWrapper.KeyBytes(ctx)
 			err = shamirWrapper.SetAesGcmKeyBytes(newSealKey)
 		}
 		if err != nil {
 			return logical.CodedError(http.StatusInternalServerError, "failed to update barrier seal key: %v", err)
 		}
+
+		// As long as the stored keys have not been written with the new seal
+		// key, the previous one is what matches storage: put it back if we
+		// fail before that, or later writes of the stored keys would use a
+		// key that was never handed out.
+		defer func() {
+			if !keysStored && oldSealKey != nil {
+				if err := shamirWrapper.SetAesGcmKeyBytes(oldSealKey); err != nil {
+					c.logger.Error("failed to restore barrier seal key", "error", err)
+				}
+			}
+		}()
 	}
 
 	newRootKey, err := c.barrier.GenerateKey()
@@ -490,6 +505,7 @@ func (c *Core) performBarrierRekey(ctx context.Context, newSealKey []byte) logic
 		c.logger.Error("failed to store keys", "error", err)
 		return logical.CodedError(http.StatusInternalServerError, "failed to store keys: %v", err)
 	}
+	keysStored = true
 
 	if err := c.barrier.RotateRootKey(ctx, newRootKey); err != nil {
 		c.logger.Error("failed to rekey barrier", "error", err)
